@@ -434,6 +434,13 @@ def judge_e2e(t, seed, kind, nch, alg, msd, nxseg, only=None):
         if nt:
             t.nontrivial.add(("e2e", kind, nch, alg, msd, nxseg, dfi))
             t.extra["nontrivial_selections"] = t.extra.get("nontrivial_selections", 0) + nt
+    # the stored decomposition must still be a faithful decomposition AFTER the extractions (an extraction must not write into it)
+    try:
+        res2 = a.result
+        mode2 = judge_decomposition(t, np.asarray(res2.Sy), res2.S_val, res2.S_vec, case0, where + ":after-mpe")
+        t.outcomes[f"decomposition after mpe: {mode2}"] += 1
+    except Exception as e:
+        t.violation(f"raises:{type(e).__name__}:decomposition-after-mpe@{where}", f"{e!r}", case0)
     if only is None and kind == "resp" and nxseg == 256 and msd == "per":
         t.sample({"level": "e2e", "alg": alg, "record": kind, "nch": nch, "nxseg": nxseg, "method_SD": msd,
                   "n_selected": int(len(sels)), "Fn_head": np.round(np.asarray(a.result.Fn).ravel()[:4], 5)})
